@@ -130,12 +130,19 @@ def run(case):
                     # the documented 'refinement' option (number of iterative refinement steps of every KKT solve)
                     {'entry': 'conelp', 'storage': 'dense', 'kkt': None, 'opts': {'refinement': 2}},
                     {'entry': 'conelp', 'storage': 'dense', 'kkt': None, 'opts': {'refinement': 0}}]
+            # valid user start points: both, or only one of them (the other one is then computed by the solver and shifted
+            # into the cone)
+            for stt in ('primal', 'dual', 'both'):
+                cfgs.append({'entry': 'conelp', 'storage': 'dense', 'kkt': None, 'start': stt})
             if not d['q'] and not d['s']:
                 cfgs.append({'entry': 'lp', 'storage': 'dense', 'kkt': None})
+                cfgs.append({'entry': 'lp', 'storage': 'sparse', 'kkt': None, 'start': 'primal'})
             if not d['s']:
                 cfgs.append({'entry': 'socp', 'storage': 'dense', 'kkt': None})
+                cfgs.append({'entry': 'socp', 'storage': 'dense', 'kkt': None, 'start': 'dual'})
             if not d['q']:
                 cfgs.append({'entry': 'sdp', 'storage': 'sparse', 'kkt': None})
+                cfgs.append({'entry': 'sdp', 'storage': 'dense', 'kkt': None, 'start': 'primal'})
             vals = []
             for cfg in cfgs:
                 res, _ = solve.call(inst, cfg)
